@@ -2,7 +2,7 @@ import OdxVerif.Proofs.CompExtDescribed
 import OdxVerif.Proofs.CompCompuKinds
 /-! Compositional components, extension W21: the inductive predicate **`Described3`** — `Described2` of
     `Proofs/CompExtDescribed.lean` plus the compu-method leaves of `Proofs/CompCompuKinds.lean` (VALUE and PHYS-CONST
-    parameters over a standard-length DOP with a LINEAR or TEXTTABLE compu method, or over a DTC-DOP), which may occur at any
+    parameters over a standard-length DOP with a LINEAR or TEXTTABLE compu method, or over a DTC-DOP; VALUE also with a PHYSICAL-DEFAULT-VALUE: `convDefault`), which may occur at any
     depth of structures (with or without BYTE-SIZE), fields and multiplexers.  The composite constructors are those of
     `Described2` verbatim (their children are `Described3` now); `old` embeds `Described2`.  Soundness `Described3.ok` is the
     proof of `Described2.ok` with the new leaf cases — every closure lemma is used unchanged. -/
@@ -20,6 +20,9 @@ inductive Described3 : Comp → Bool → Prop
   | dtcConst (l : DtcLeaf) (supplied : Bool) : l.ok → Described3 (l.constComp supplied) false
   | convLeaf (o : Obj) (dop : Dop) (sup val : PVal) (i : IVal) : o.ok → o.inRange i → ConvOk dop o.dct sup val i →
       Described3 (Comp.ofConvLeaf o dop sup val i) false
+  | convDefault (o : Obj) (dop : Dop) (dv : PVal) (omitted : Bool) (sup val : PVal) (i : IVal) : o.ok → o.inRange i →
+      ConvOk dop o.dct sup val i → (omitted = true → sup = dv) →
+      Described3 (Comp.ofConvDefault o dop dv omitted sup val i) false
   | convPhysConst (o : Obj) (dop : Dop) (c val : PVal) (i : IVal) (supplied : Bool) : o.ok → o.inRange i →
       ConvOk dop o.dct c val i → pvalEq c c = true → pvalEq val c = true →
       Described3 (Comp.ofConvPhysConst o dop c val i supplied) false
@@ -73,6 +76,8 @@ theorem Described3.ok {g : Comp} {mid : Bool} (h : Described3 g mid) : (∀ P, g
   | dtcConst l b hl => exact ⟨fun P => (l.constComp_ok hl b).toM _ P, l.constComp_endOk b⟩
   | convLeaf o dop sup val i ho hr hc =>
     exact ⟨fun P => (Comp.ofConvLeaf_ok o dop sup val i ho hr hc).toM _ P, Comp.ofConvLeaf_endOk o dop sup val i⟩
+  | convDefault o dop dv om sup val i ho hr hc hom =>
+    exact ⟨fun P => (Comp.ofConvDefault_ok o dop dv om sup val i ho hr hc hom).toM _ P, Comp.ofConvDefault_endOk o dop dv om sup val i⟩
   | convPhysConst o dop c val i b ho hr hc h1 h2 =>
     exact ⟨fun P => (Comp.ofConvPhysConst_ok o dop c val i b ho hr hc h1 h2).toM _ P, Comp.ofConvPhysConst_endOk o dop c val i b⟩
   | struct name bp bso ms _ hn hlast hsz ih =>
